@@ -48,7 +48,7 @@ MUT = {
                                                       "        summation: float = sum(self._jdd.values())\n        if abs(summation - 1.0) < 0.05:\n            return\n")]),
     "M18_probs_reversed_index": ("violation", [(S, "pow(self._probs[i], (i + 1) * degree)",
                                                 "pow(self._probs[len(jd) - 1 - i], (i + 1) * degree)")]),
-    "M19a_second_call_blend_equivalent": ("benign", [(S, "    def create_jdd(self) -> None:\n        self._jdd = {}\n",
+    "M19a_second_call_blend_keeps_old_table": ("violation", [(S, "    def create_jdd(self) -> None:\n        self._jdd = {}\n",
                                                    "    def create_jdd(self) -> None:\n        if getattr(self, '_jdd', None) is None:\n            self._jdd = {}\n"),
                                                   (S, "self._jdd[tuple(jd)] = prob_overall_k * probabilities[i]",
                                                    "self._jdd[tuple(jd)] = self._jdd.get(tuple(jd), 0.0) * 0.5 + prob_overall_k * probabilities[i]")]),
@@ -64,6 +64,15 @@ MUT = {
                                                  "range(0, min(remaining_degree // topology, 3) + 1)")]),
     "M24_zero_prob_kills_weight": ("violation", [(S, "            prod *= pow(self._probs[i], (i + 1) * degree)",
                                                   "            prod *= pow(self._probs[i], (i + 1) * degree) if self._probs[i] else 0.0")]),
+    "M25_weight_memo_per_instance": ("violation", [(S, "        prod: float = 1.0\n",
+                                                    "        if not hasattr(self, '_wmemo'):\n            self._wmemo = {}\n        if tuple(jd) in self._wmemo:\n            return self._wmemo[tuple(jd)]\n        prod: float = 1.0\n"),
+                                                   (S, "        return prod\n", "        self._wmemo[tuple(jd)] = prod\n        return prod\n")]),
+    "M26_fp_memo_per_instance": ("violation", [(S, "            self.resolve_degree(k, self._fp(k))",
+                                                "            if not hasattr(self, '_fmemo'):\n                self._fmemo = {}\n            if k not in self._fmemo:\n                self._fmemo[k] = self._fp(k)\n            self.resolve_degree(k, self._fmemo[k])")]),
+    "M27_delta_trims_callers_motif_sizes": ("violation", [(D, "        self.normalise_jdd()",
+                                                           "        self.normalise_jdd()\n        del self._motif_sizes[len(self._probs):]")]),
+    "M28_generator_memo_returns_shared_rows": ("violation", [(S, "    def get_valid_joint_degrees(self, remaining_degree: int, topology: int) -> list:",
+                                                              "    def get_valid_joint_degrees(self, remaining_degree: int, topology: int) -> list:\n        if not hasattr(self, '_vmemo'):\n            self._vmemo = {}\n        key = (remaining_degree, topology)\n        if key not in self._vmemo:\n            self._vmemo[key] = list(self._gen(remaining_degree, topology))\n        return self._vmemo[key]\n\n    def _gen(self, remaining_degree: int, topology: int) -> list:")]),
     "M22_delta_target_int_division": ("violation", [(D, "if k != self._target_k:", "if k // 2 != self._target_k // 2:")]),
 }
 
